@@ -498,6 +498,15 @@ class PathEnumerator:
                     e2[dl] = 1
                     for x in chain:
                         e2[x] = 1
+                elif dl is not None and len(taken) == 1 and taken <= {0, 1}:
+                    # `if let Some(x) = opt` / `while let`: the otherwise edge of a two-variant enum's discriminant is the other variant
+                    for st_ in reversed(fn.blocks[bb].stmts):
+                        if st_.k == "assign" and st_.place.is_local() and st_.place.local == dl:
+                            if st_.rv.k == "discr":
+                                src_ty = fn.local_ty(st_.rv.place.local) if st_.rv.place.is_local() else ""
+                                if enum_kind_of_ty(src_ty) in ("option", "result"):
+                                    ov = 1 - next(iter(taken))
+                            break
                 evs2, state2 = self._push(evs, state, {"kind": "branch", "bb": bb, "local": dl, "value": ov if ov is not None else "otherwise", "span": t.span, "cond": cond, "discr_ty": dty,
                                                        "arm_values": tuple(v for v, _ in arms)})
                 c2 = self._refine_cls(bb, dl, ov, cls) if ov is not None else cls
@@ -838,7 +847,8 @@ class PathEnumerator:
                     e["args"] = [subst_term(x, m) for x in w.get("args", [])]
                     if w.get("value") is not None:
                         e["value"] = subst_term(w["value"], m)
-                    e.update({"bb": bb, "idx": idx, "span": w.get("span", t.span), "origin_fn": self.fn.key, "via": (), "closure": ckey, "hof": name})
+                    # writes the closure performs itself count as writes of this function; those of functions it calls keep their chain
+                    e.update({"bb": bb, "idx": idx, "span": w.get("span", t.span), "origin_fn": self.fn.key, "via": tuple(w.get("via", ())), "closure": ckey, "hof": name})
                     k = (repr(e["root"]), e["path"], e["how"], e.get("name"), repr(e["args"]), repr(e.get("value")))
                     if k in seen_w:
                         continue
